@@ -141,7 +141,18 @@ impl Kind for Diesel {
             // the ping of CustomQuery fails from now on
             diesel::sql_query("DROP TABLE temp.dpv_pingok").execute(c).expect("drop ping table");
         }
-        if flags & 1 != 0 && old & 1 == 0 {
+        if flags & 4 != 0 && old & 4 == 0 && old & 1 == 0 && flags & 1 == 0 {
+            // the transaction manager in its error state: diesel's own ROLLBACK fails because the closure
+            // ended the transaction behind its back
+            use diesel::Connection;
+            let r: Result<(), diesel::result::Error> = c.transaction(|c| {
+                diesel::sql_query("ROLLBACK").execute(c)?;
+                Err(diesel::result::Error::RollbackTransaction)
+            });
+            assert!(r.is_err());
+            assert!(AnsiTransactionManager::transaction_manager_status_mut(c).transaction_depth().is_err());
+        }
+        if flags & 1 != 0 && old & 1 == 0 && old & 4 == 0 {
             // a dangling transaction: the transaction manager counts as broken
             AnsiTransactionManager::begin_transaction(c).expect("begin");
         }
@@ -610,8 +621,8 @@ pub fn gen_case(rt: &tokio::runtime::Runtime, rng: &mut Rng, mgr: i64, maxlabels
     let flag_choices: Vec<i64> = match (mgr, method) {
         (0, _) => vec![],
         (1, _) => vec![0, 1, 2, 3],
-        (2, 2) | (2, 3) => vec![1, 2, 3],
-        _ => vec![1],
+        (2, 2) | (2, 3) => vec![1, 2, 3, 4, 6],
+        _ => vec![1, 4],
     };
     let mut tail: Option<Vec<Vec<i64>>> = None;
     let mut flags_of: HashMap<i64, i64> = HashMap::new();
